@@ -12,6 +12,13 @@ EntityUID EntityGenerator::NewUID() {
   EntityUID result{ 0 };
   const auto oldSize = ssize(entities);
   while (ssize(entities) == oldSize) {
+#ifdef CCL_VERIF
+    if (verifSeeded) {
+      result = static_cast<EntityUID>(distribution(verifEngine));
+      entities.emplace(result);
+      continue;
+    }
+#endif
     result = static_cast<EntityUID>(distribution(Environment::RNG()));
     entities.emplace(result);
   }
